@@ -13,6 +13,17 @@ namespace Sqlgrep
 
 abbrev Bytes := List Nat
 
+/-- The external functions of the evaluator as TOTAL functions — what the libraries are: `str::to_uppercase` /
+`to_lowercase` answer for every text, `Regex::new(p)` + `is_match(v)` for every pair (`none` = invalid pattern), the clock
+has a reading. Used to STATE totality (property C09) for every statement: with these in place no lookup the evaluator
+can make is unanswered (`Lemmas/NoSkip.lean` `NM_callFunction_total`). The driver never has them — it works from the
+finite tables below, and answers `skip` where a table has no entry. -/
+structure TotalOracles where
+  upperF : Bytes → Bytes
+  lowerF : Bytes → Bytes
+  regexF : Bytes → Bytes → Option Bool
+  nowF : Value
+
 /-- facts about external libraries shipped with a case (computed by the harness calling them directly) -/
 structure Oracles where
   fparse : List (Bytes × Option Nat) := []                    -- `f64::from_str`
@@ -20,7 +31,17 @@ structure Oracles where
   regex : List ((Bytes × Bytes) × Option Bool) := []          -- (value, pattern) ↦ is_match; `none` = invalid pattern
   upper : List (Bytes × Bytes) := []                          -- `str::to_uppercase` (non-ASCII input)
   lower : List (Bytes × Bytes) := []
-  deriving Inhabited
+  /-- the total functions standing behind the tables, asked where a table has no entry (and for `now()`); `none` in
+  every `Oracles` the driver builds: a missing entry is then `oracleMissing` (the case answers `skip`) -/
+  total : Option TotalOracles := none
+
+instance : Inhabited Oracles := ⟨{}⟩
+
+/-- every lookup the evaluator can make is answered -/
+def Oracles.Total (O : Oracles) : Prop := ∃ T, O.total = some T
+
+/-- the oracle made of total functions alone (no table) -/
+def TotalOracles.oracles (T : TotalOracles) : Oracles := { total := some T }
 
 def lookupB {β : Type} (tbl : List (Bytes × β)) (k : Bytes) : Option β :=
   (tbl.find? (fun p => p.1 == k)).map (·.2)
@@ -440,7 +461,10 @@ def callFunction (O : Oracles) (f : Func) (args : List Value) : Outcome Value :=
       if isAscii s then .ok (.text (asciiUpper s))
       else match lookupB O.upper s with
         | some r => .ok (.text r)
-        | none => .oracleMissing "upper"
+        | none =>
+          match O.total with
+          | some T => .ok (.text (T.upperF s))
+          | none => .oracleMissing "upper"
     | _ => undef
   | .lower, [a] =>
     match a with
@@ -448,7 +472,10 @@ def callFunction (O : Oracles) (f : Func) (args : List Value) : Outcome Value :=
       if isAscii s then .ok (.text (asciiLower s))
       else match lookupB O.lower s with
         | some r => .ok (.text r)
-        | none => .oracleMissing "lower"
+        | none =>
+          match O.total with
+          | some T => .ok (.text (T.lowerF s))
+          | none => .oracleMissing "lower"
     | _ => undef
   | .regexMatches, [a, b] =>
     match a, b with
@@ -456,7 +483,13 @@ def callFunction (O : Oracles) (f : Func) (args : List Value) : Outcome Value :=
       match (O.regex.find? (fun e => e.1.1 == v && e.1.2 == p)).map (·.2) with
       | some (some m) => .ok (.bool m)
       | some none => .error .invalidRegex
-      | none => .oracleMissing "regex"
+      | none =>
+        match O.total with
+        | some T =>
+          match T.regexF v p with
+          | some m => .ok (.bool m)
+          | none => .error .invalidRegex
+        | none => .oracleMissing "regex"
     | .null, .text _ => .ok (.bool false)
     | _, _ => undef
   | .createArray, args =>
@@ -483,7 +516,11 @@ def callFunction (O : Oracles) (f : Func) (args : List Value) : Outcome Value :=
     match b with
     | .array t xs => if some t == a.valueType then .ok (.array t (a :: xs)) else undef
     | _ => undef
-  | .now, [] => .oracleMissing "now"
+  | .now, [] =>
+    -- the model has no clock of its own: the reading is an external fact, never shipped with a case
+    match O.total with
+    | some T => .ok T.nowF
+    | none => .oracleMissing "now"
   -- the documented seven arguments; an eighth one used to be required (finding D64, /repo 7252aee) and is still
   -- accepted but never read
   | .makeTimestamp, [.int y, .int mo, .int d, .int h, .int mi, .int s, .int us, _] => makeTimestampOf y mo d h mi s us
